@@ -167,6 +167,8 @@ func TestC01TokenSequences(t *testing.T) {
 	k := h.N(4, 5)
 	run := h.Begin("C01", "token-sequences", fmt.Sprintf("bounded-exhaustive: every sequence of 1..%d tokens over the full %d-lexeme alphabet (all operators, keywords, identifier/number/string spellings, hostile lexemes '#', '\\', unterminated string, '1a', '1_', '0x1'), space separated; oracle: no panic, returns, exactly one of error / complete tree with no diagnostics and the whole input consumed; non-trivial: more than one token and accepted with >=3 nodes or rejected", k, len(c01Alphabet)))
 	defer run.End(t)
+	wd := startWatchdog(t, run, 20*time.Second) // a parse that does not return is a violation (hang), not a harness timeout
+	defer wd.close()
 	var sb strings.Builder
 	enumSeq(len(c01Alphabet), k, func(seq []int) {
 		if run.NViolations() >= 3 {
@@ -180,7 +182,9 @@ func TestC01TokenSequences(t *testing.T) {
 			sb.WriteString(c01Alphabet[s])
 		}
 		text := []byte(sb.String())
+		wd.enter("c01", mkTextCase(string(text), ""))
 		out := obs.Parse(text)
+		wd.leave()
 		msg, cls := "", ""
 		switch {
 		case out.Panic != nil:
